@@ -6,6 +6,7 @@ import PyGqlModel.StringUtils
 import PyGqlModel.PrintString
 import PyGqlModel.Spec.Lexical
 import PyGqlModel.Spec.BlockStringSpec
+import PyGqlModel.Utf8
 import Driver.ParseOps
 open PyGql
 
@@ -66,6 +67,11 @@ def handle? (j : J) : Option J :=
       match Driver.ParseOps.parseEntry (j.strD "entry") (Driver.ParseOps.flagsOfJson j) toks with
       | .ok (ast, _) => .obj [("ok", ast)]
       | .error e => .obj [("err", .obj ([("stage", .str "parse")] ++ render e.pos))]
+  | "decode_utf8" =>
+    -- `Lexer.__init__` on a bytes source: the decoded text, or the character offset of the first undecodable sequence
+    some <| match Utf8.decode (j.textD "bytes") with
+    | .ok t => .obj [("ok", J.ofText t)]
+    | .error pos => .obj [("err", J.ofNat pos)]
   | "spec_lexeme" =>
     let l := j.textD "text"
     let raw := Spec.Lexical.blockStringRaw l
